@@ -7,7 +7,7 @@ VERIF = os.path.dirname(os.path.dirname(os.path.abspath(__file__)))
 
 CHECKS = {
     "C04": {
-        "technique": "static analysis: success-edge dominance (`?` Continue edge) over borrowck-time MIR; loop-exit dominance; who-may-call; typestate via item signatures; THIR match table",
+        "technique": "static analysis: success-edge dominance over borrowck-time MIR (run's step chain, client methods); option-aware maybe-initialised dataflow for 'no reply future of a sent load un-awaited at Ok' (any loop / container idiom); introduction sites of Client<_,Open>; abstract interpretation of handle_task; reply classification shared with C08",
         "text": "Exact decision of the structural statement: on every CFG path of Updater::run, commit_config (its only call site in the workspace) is reachable only through the success edges of open_db, both fetches, try_join!, and load_config; load_config returns Ok only after the loop over every pushed reply future is exhausted with each reply `?`-checked; every client method returns success only through both awaits' success edges; Client<_,Open> is constructed only in open_db. This covers all fault positions because it quantifies over CFG paths rather than sampled faults. Not decided: server behaviour, try_join!/`?` semantics (trusted).",
         "note": "Trusts rustc's MIR construction (nightly 1.97) as a faithful rendering of the source semantics, tokio::try_join! documentation, and C08 for what a positive acknowledgement is.",
         "design_ref": "DESIGN.md §3 C04",
@@ -16,32 +16,32 @@ CHECKS = {
 
 CHECKS.update({
     "C05": {
-        "technique": "static analysis: who-may-call + value-origin slices on MIR (message-id freshness, own-slot delivery), THIR match tables (slot state machine), MutexGuard live ranges via maybe-initialised dataflow (lock order, guard across await), success-edge dominance",
-        "text": "Decides the structural clauses that hold on every schedule: ids given to Request::new come from MessageId::increment on the session's counter (only writer: Session::rpc, &mut self, Session not Clone); the delivered reply comes only from the caller's own slot and a received reply is parked only under its own id, unknown ids take an error edge; the slot state machine has no double delivery / overwrite; the requests guard is held from lookup through send to insert(Pending) and insert follows send's success edge; the lock-order graph is acyclic and the map is not locked across the transport read; Reply::try_from cross-checks the id. NOT decided (not applicable to static analysis): wake-up order, Mutex fairness, progress ('no caller waits forever') under all interleavings.",
+        "technique": "static analysis: path exploration of Session::recv per slot-state case and of OutstandingRequest::take with stores through &mut modelled (vlib/absint.py); value-origin slices and dominance on MIR for id freshness (counter advanced before send); MutexGuard live ranges (lock order, guards across awaits, slot check under the receive lock)",
+        "text": "Decides the structural clauses that hold on every schedule: ids given to Request::new come from MessageId::increment on the session's counter (only writer: Session::rpc, &mut self, Session not Clone); the delivered reply comes only from the caller's own slot and a received reply is parked only under its own id, unknown ids take an error edge; the slot state machine has no double delivery / overwrite; the requests guard is held from lookup through send to insert(Pending) and insert follows send's success edge; the lock-order graph is acyclic and the map is not locked across the transport read; Reply::try_from cross-checks the id. NOT decided (not applicable to static analysis): wake-up order, Mutex fairness, progress ('no caller waits forever') under all interleavings. Second round: the counter is advanced before the request can reach the wire (no write to it can follow the send); the caller looks into its own slot while already holding the receive lock and keeps that lock until it reads.",
         "note": "Trusts tokio::sync::Mutex mutual exclusion and HashMap semantics; usize overflow of the counter out of scope. Scheduling clauses of C05 are outside this technique.",
         "design_ref": "DESIGN.md §3 C05",
     },
     "C06": {
-        "technique": "static analysis: symbolic evaluation of the search-window start and split position from MIR def chains, must-pass-through reachability (re-search before wait), place-root analysis of buffers, dominance for delimiter placement",
+        "technique": "static analysis: symbolic evaluation of the search-window start and split position from MIR def chains (through a find+split helper if there is one), must-pass-through reachability (re-search before wait), place-root analysis of buffers, dominance for delimiter placement",
         "text": "Decides, for every path of the three framing loops, the dataflow facts that make framing independent of segmentation: the search window start is 0 or buf.len() minus at least MARKER.len()-1 at every definition; split position = start + index + MARKER.len(); a find precedes every wait for input and the SSH pump re-searches until no marker is left; buffers persist across calls; to_xml appends the 6-byte marker exactly once after the document. Not decided: concrete chunkings, TLS/SSH record layers (trusted).",
         "note": "Trusts memchr Finder::find (first occurrence), BytesMut::split_to semantics, in-order delivery by rustls/russh.",
         "design_ref": "DESIGN.md §3 C06",
     },
     "C07": {
-        "technique": "static analysis: exit-edge reachability on MIR (zero-length read / closed-source outcomes must not reach the loop again), success-edge dominance for error propagation",
+        "technique": "static analysis: exit-edge reachability on MIR (zero-length read / closed-source outcomes must not reach the loop again), success-edge dominance for error propagation, abstract interpretation of the SSH receiver's queue-closed outcome",
         "text": "Decides the 'never spins / every read loop leaves on end-of-stream' clauses on all CFG paths: the byte count of every read_buf in a receive loop is compared with zero and the zero edge cannot reach the read again and ends in Err; in the SSH pump, recv()==None, wait()==None and ChannelMsg::Eof edges leave the loop; Session::recv/ServerMsg::recv/ClientMsg::send propagate transport errors; closed queue => Error::DequeueMessage. NOT decided: 'within bounded time' (timing), half-open connections, russh/rustls internals.",
         "note": "Trusts read_buf returning Ok(0) at EOF, russh Channel::wait()==None after close, mpsc closure semantics.",
         "design_ref": "DESIGN.md §3 C07",
     },
     "C08": {
-        "technique": "static analysis: control dependence (edge dominance on predicate results) of success-variant constructions in the four reply readers, THIR match tables for IntoResult, origin slices and who-may-write for the error list",
+        "technique": "static analysis: control dependence (edge dominance on predicate results, helper predicates verified by abstract interpretation) of success-variant constructions in the four reply readers, THIR match tables for IntoResult, origin slices and who-may-write for the error list",
         "text": "Exact decision of the structural statement over all paths of the four reply readers: every construction of the success variant is dominated by the no-error edge of a predicate on the accumulated errors (is_empty, or no collected error of severity error), every rpc-error acceptance sharing a loop with a success construction is dominated by 'no result yet', IntoResult maps Errs to Err only, the reported Errors is the list the reply's rpc-errors were appended to (only Errors::push mutates it). Not decided: fidelity of the rpc-error leaf parser.",
         "note": "Trusts quick-xml document-order event delivery and Vec::push ordering.",
         "design_ref": "DESIGN.md §3 C08",
     },
     "C18": {
-        "technique": "static analysis: backward liveness ∩ maybe-initialised dataflow at every coroutine Yield (values of received-data types held across a suspension point), denylist of cancel-unsafe awaited futures, guard-escape scan",
-        "text": "Decides cancellation safety as a liveness question at each suspension point of Session::recv, ServerMsg::recv and the three transport recv coroutines: no PartialReply/Reply/Bytes/BytesMut/String taken off the transport is live across an await, except the listed known finding (Session::recv holds the just-read reply across requests.lock().await; reproduced, see known_findings.json). Not decided: which suspension points a concrete schedule reaches; executor behaviour.",
+        "technique": "static analysis: backward liveness ∩ maybe-initialised dataflow at every coroutine Yield (values of received-data types held across a suspension point), denylist of cancel-unsafe awaited futures, guard-escape scan, removal sites of the request table and Drop impls among the reply future's locals",
+        "text": "Decides cancellation safety as a liveness question at each suspension point of Session::recv, ServerMsg::recv and the three transport recv coroutines: no PartialReply/Reply/Bytes/BytesMut/String taken off the transport is live across an await, except the listed known finding (Session::recv holds the just-read reply across requests.lock().await; reproduced, see known_findings.json). Not decided: which suspension points a concrete schedule reaches; executor behaviour. Second round: no entry of the request table is removed except after its reply was delivered, and dropping a reply future runs no code of this crate (no local of Session::recv / rpc has a type with a Drop impl written here).",
         "note": "Trusts tokio's documented cancel-safety of Mutex::lock, mpsc::Receiver::recv, read_buf; a coroutine drop drops exactly its initialised locals.",
         "design_ref": "DESIGN.md §3 C18",
     },
@@ -49,31 +49,31 @@ CHECKS.update({
 
 CHECKS.update({
     "C03": {
-        "technique": "static analysis: abstract evaluation of the compare match over the finite (evaluated x installed) domain (THIR patterns), call-chain origin of Evaluated.ranges, pattern-context analysis of sink_error's boolean results, THIR path rule for the annotation reader",
+        "technique": "static analysis: abstract interpretation of the function's THIR over the rule's abstract input cases (vlib/absint.py: local fns/closures inlined, Option/Result combinators and `?` interpreted, undecided branches fork the path) — compare per (evaluated x installed) case, Candidate::evaluate per evaluator outcome, Policies::evaluate (iterator chain or loop form), the as-set resolver per initial-query outcome, one iteration of the annotation scan; pattern-context analysis of sink_error",
         "text": "Decides the structural necessary conditions: compare yields no Update/Delete for ranges=None and Delete only for (absent, present) — exhaustive over the 6 abstract cases; ranges is .ok() of the evaluator result with no defaulting combinator and candidates are mapped one-to-one; sink_error can abort and tolerates only route-query KeyNotFound / unparsable single items; the as-set resolver propagates an unknown as-set. One known finding (malformed annotation => Delete, TODO in source) is listed. Not decided: which errors the IRR returns, irrc internals.",
         "note": "Trusts rpsl-0.1.1 collect_result(s)/sink_error contract and irrc-0.1.0 error classification (versions pinned by Cargo.lock).",
         "design_ref": "DESIGN.md §3 C03",
     },
     "C09": {
-        "technique": "static analysis: THIR-derived tables (operation requirements, parameter gates, capability URI parser and its inverse) compared with an RFC 6241 §8 reference; control dependence of builder stores on gate success (MIR dominance / Result::map continuation); who-may-construct; success-edge dominance in Session::rpc",
+        "technique": "static analysis: abstract interpretation of the function's THIR over the rule's abstract input cases (vlib/absint.py: local fns/closures inlined, Option/Result combinators and `?` interpreted, undecided branches fork the path) — every public builder setter per parameter value (requirement checked = RFC 6241 §8 reference, against the server's set, Ok iff the check is true, nothing else gating), Operation::new, Url::try_new, Session::rpc; THIR tables for operation requirements and the capability URI parser / inverse; who-may-construct on MIR",
         "text": "Exact decision of the structural statement in both directions (never more, never less than advertised) by equality with the RFC 6241 §8 reference: 20 Operation impls, 19 gate-table rows, Requirements::check semantics, every gate checks the server's capability set and returns Ok only on the true edge, every gated builder parameter is stored only under its gate's success, operation structs/Url are built only by their builders, nothing is sent unless O::new succeeded, the capability URI parser equals the IANA URN table and its inverse. Not decided: iri-string's URI splitting (trusted).",
         "note": "Reference tables come from RFC 6241 §8/§10.4 (external to the code). Junos operations are assumed to need only the Junos XML-management capability.",
         "design_ref": "DESIGN.md §3 C09",
     },
     "C15": {
-        "technique": "static analysis: iterator-chain / signature check for isolation; explicit-panic site inventory over the workspace's resolver bodies (MIR) and over the optimized MIR of rpsl's generic Evaluate impls read from dependency metadata (full build), with catch_unwind containment check",
+        "technique": "static analysis: abstract interpretation of Policies::evaluate (no early exit in either form), Candidate::evaluate, compare per failed-evaluation case and with_connection (evaluator survives a failed evaluation); explicit-panic site inventory over the workspace's resolver bodies and over the optimized MIR of rpsl's generic Evaluate impls read from dependency metadata",
         "text": "Decides the isolation structure (no early exit, per-candidate .ok()) and lists every explicit not-implemented panic reachable from the per-candidate evaluation: none in the workspace (PeerAS fixed), two todo!() in rpsl-0.1.1's Literal::evaluate recorded as known findings (reproduced with the real binary). Not decided: which expressions an IRR can answer; implicit panics in dependencies.",
         "note": "Assumes every Resolver/Evaluate impl is reachable by some valid expression; rpsl/irrc pinned by Cargo.lock (keys carry the version).",
         "design_ref": "DESIGN.md §3 C15",
     },
     "C17": {
-        "technique": "static analysis: must-pass-through reachability on MIR (connection restored on every non-unwinding path), who-may-access scan of the conn field",
-        "text": "Decides ONE clause: after a successful take, every return of with_connection passes through self.conn = Some(<the taken connection>), and the connection is touched only there — so a failed evaluation leaves the evaluator usable. The response-attribution clause (responses never attributed to the wrong query, partly consumed pipelines drained) is irrc-0.1.0's run-time logic and is NOT applicable to this technique.",
+        "technique": "static analysis: abstract interpretation of with_connection per outcome of take() and of the resolver closure (connection restored before every return); who-may-access scan of the conn field; field-write / interior-mutability / statics scan for state carried across evaluations",
+        "text": "Decides ONE clause: after a successful take, every return of with_connection passes through self.conn = Some(<the taken connection>), and the connection is touched only there — so a failed evaluation leaves the evaluator usable. The response-attribution clause (responses never attributed to the wrong query, partly consumed pipelines drained) is irrc-0.1.0's run-time logic and is NOT applicable to this technique. Second round: the evaluator carries nothing but the connection from one evaluation to the next (no other field is written, mutably borrowed or moved out after construction; no interior mutability; no statics in the library).",
         "note": "Trusts irrc-0.1.0's Pipeline drain-on-drop. Unwinding paths are C15's subject.",
         "design_ref": "DESIGN.md §3 C17",
     },
     "C19": {
-        "technique": "static analysis: THIR tables (update equations of the loop-carried back-off, select! arm bodies, signal registrations, Frequency mapping) + must-pass-through reachability on MIR (timer reset between job completion and next tick)",
+        "technique": "static analysis: path exploration of Loop::start, one loop iteration per select! outcome (vlib/absint.py): timer operation and its argument, assignment to the loop-carried delay, loop exit — per outcome; registrations; Frequency::from and main's dispatch through whatever helper",
         "text": "Decides the three update equations of `backoff` (initial MIN_BACKOFF=60s; Ok: reset(), backoff=MIN_BACKOFF; Err: reset_after(pre-update backoff), backoff=min(period, backoff*k>=2)), that every path from job completion to the next tick resets the timer, that SIGINT/SIGTERM arms break Ok(()), SIGHUP arm calls reset_immediately(), registrations are checked, and 0 => one-shot. The numeric bound follows on paper from the verified equations. Not decided: signal arrival times, tokio Interval semantics (trusted).",
         "note": "Trusts tokio::time::Interval and tokio::select! documentation.",
         "design_ref": "DESIGN.md §3 C19",
@@ -82,14 +82,14 @@ CHECKS.update({
 
 CHECKS.update({
     "C01": {
-        "technique": "static analysis: abstract evaluation of the compare match over its finite domain; abstract interpretation of the payload writer's THIR into the emitted XML tree for every abstract case (old x new x family), checked against the element requirements extracted from the agent's own readers",
-        "text": "Decides structural necessary conditions of convergence: the complete compare decision table with old/new wiring; for all 12 abstract (old,new,family) cases the emitted term tree is readable by the agent's own Term/TermFrom/RouteFilter readers, deletes a term exactly when the family becomes empty, deletes old\\new and adds new\\old (HashSet::difference), and the envelope order. NOT decided: set contents and prefix arithmetic, Junos merge behaviour, equality after read-back for concrete values, behaviour over run sequences (the paper argument (old\\(old\\new)) U (new\\old) = new is not machine-checked).",
+        "technique": "static analysis: abstract interpretation of the function's THIR over the rule's abstract input cases (vlib/absint.py: local fns/closures inlined, Option/Result combinators and `?` interpreted, undecided branches fork the path) for the compare decision table / wiring and for the payload writer (emitted XML tree per abstract case, vlib/xmlemit.py), checked against the element requirements and the value path of the agent's own readers",
+        "text": "Decides structural necessary conditions of convergence: the complete compare decision table with old/new wiring; for all 12 abstract (old,new,family) cases the emitted term tree is readable by the agent's own Term/TermFrom/RouteFilter readers, deletes a term exactly when the family becomes empty, deletes old\\new and adds new\\old (HashSet::difference), and the envelope order. NOT decided: set contents and prefix arithmetic, Junos merge behaviour, equality after read-back for concrete values, behaviour over run sequences (the paper argument (old\\(old\\new)) U (new\\old) = new is not machine-checked). Second round: also the value path of the installed-state reader (every route-filter converted and pushed, bound order, writer/reader agreement on the length-range format, field sources).",
         "note": "Junos normalisation prefix-length-range <-> choice-ident/choice-value and merge semantics are assumptions.",
         "design_ref": "DESIGN.md §3 C01",
     },
     "C02": {
-        "technique": "static analysis: the same THIR abstract interpretation of the payload writer; structural predicates on the emitted tree per abstract case; who-may-send and origin of the opened database",
-        "text": "Decides, for each update on its own and every abstract case: every accept sits in a term with from/family of the same family and only when the new set is non-empty; non-deleted route-filters come only from the evaluated set, deleted ones from old\\new; an emptied family is removed as a whole term; Update always ends in then/reject; element names are literals from the policy-statement vocabulary; only load_config on the configured ephemeral instance sends it. NOT decided: that the evaluated set is right (C11), Junos merge semantics, accept-set of a concrete policy.",
+        "technique": "static analysis: the same abstract interpretation of compare and of the payload writer; structural predicates on the emitted tree per abstract case; who-may-send and origin of the opened database; sibling agreement of the two policy-name readers",
+        "text": "Decides, for each update on its own and every abstract case: every accept sits in a term with from/family of the same family and only when the new set is non-empty; non-deleted route-filters come only from the evaluated set, deleted ones from old\\new; an emptied family is removed as a whole term; Update always ends in then/reject; element names are literals from the policy-statement vocabulary; only load_config on the configured ephemeral instance sends it. NOT decided: that the evaluated set is right (C11), Junos merge semantics, accept-set of a concrete policy. Second round: the `old` handed to the writer is the installed set of the same policy and family on every path (else stale ranges are never deleted), and the candidate and installed readers normalise policy names by the same chain.",
         "note": "Same assumptions as C01.",
         "design_ref": "DESIGN.md §3 C02",
     },
@@ -97,13 +97,13 @@ CHECKS.update({
 
 CHECKS.update({
     "C12": {
-        "technique": "static analysis: advertised-vs-implemented check (THIR const of the client hello vs readers of the negotiated version in MIR), THIR call-chain table for highest_common_version, who-may-construct SessionId, origin/order of Context::new arguments, success-edge dominance in Session::new",
-        "text": "Decides: every advertised base version other than 1.0 requires version-dependent framing code (none exists, so only :base:1.0 may be advertised — fixed in b7bc1f8); highest common version = greatest element of the intersection (derived Ord, ascending variants); SessionId is NonZeroU32 built only by new/from_str, duplicates/missing hello children are errors; the Context reports the hello's session-id and capability sets; Ok(Session) only through the success edges of hello exchange and negotiation. NOT decided: 'if and only if well-formed' in full (C13/C14 reader analysis), exchange orderings.",
+        "technique": "static analysis: abstract interpretation of the function's THIR over the rule's abstract input cases (vlib/absint.py: local fns/closures inlined, Option/Result combinators and `?` interpreted, undecided branches fork the path) — highest_common_version, SessionId::new/from_str, the hello reader's paths (duplicates / unknown / missing), the context Session::new builds; advertised-vs-implemented check; coroutine MIR for the joined hello exchange (send and receive driven by one suspension point)",
+        "text": "Decides: every advertised base version other than 1.0 requires version-dependent framing code (none exists, so only :base:1.0 may be advertised — fixed in b7bc1f8); highest common version = greatest element of the intersection (derived Ord, ascending variants); SessionId is NonZeroU32 built only by new/from_str, duplicates/missing hello children are errors; the Context reports the hello's session-id and capability sets; Ok(Session) only through the success edges of hello exchange and negotiation. NOT decided: 'if and only if well-formed' in full (C13/C14 reader analysis), exchange orderings. Second round: the future sending the client hello and the future receiving the server hello are polled by one and the same suspension point (neither order of the simultaneous exchange can block the other); a repeated or unknown hello element reaches the error arm (no skipping arm).",
         "note": "RFC 6242 §4.1 framing rule is the external reference; BTreeSet::last semantics trusted.",
         "design_ref": "DESIGN.md §3 C12",
     },
     "C20": {
-        "technique": "static analysis: enumeration of formatting sinks from MIR; Debug-closure over the type graph (local items + derived/hand-written flags of dependency Debug impls read from crate metadata); audit of the redacting impl's MIR; forward taint of the raw secret",
+        "technique": "static analysis: enumeration of formatting sinks from MIR; Debug-closure over the type graph (local items + derived/hand-written flags of dependency Debug impls read from crate metadata); audit of the redacting impl's MIR; forward taint of the raw secret (into private helpers of Ssh::connect) and of PEM file bytes (through parser results and closures)",
         "text": "Decides the type-and-dataflow part: no formatting sink's type closure reaches a secret-carrying type except through an audited hand-written redacting Debug; Password's Debug never reads its field and Password has no Display/Deref/AsRef; the raw password string flows only to authenticate_password; no private-key accessor is called; PEM bytes are never formatted. NOT decided: what russh/rustls/tokio log internally with the secret they were given; encodings are covered only in the sense that no sink receives the secret in any form.",
         "note": "rustls-pki-types 1.7.0 and rustls 0.22.4 Debug impls reviewed by hand; the check fails if Cargo.lock moves off those versions.",
         "design_ref": "DESIGN.md §3 C20",
@@ -112,25 +112,25 @@ CHECKS.update({
 
 CHECKS.update({
     "C10": {
-        "technique": "static analysis: enumeration and classification of every write reaching quick_xml::Writer (escaping vs raw sinks) over MIR, origin slices for element/attribute names and text constructors, audited raw-site table, dominance for delimiter placement",
+        "technique": "static analysis: enumeration and classification of every write reaching quick_xml::Writer (escaping vs raw sinks) over MIR, origin slices for element/attribute names (a private helper's name parameter is checked at its call sites) and text constructors, audited raw-site table, dominance for delimiter placement, abstract result of to_xml for UTF-8 validation",
         "text": "Decides the escaping discipline on all paths of every writer body: names are static; every text-valued field reaches an escaping sink (BytesText::new / (&str,&str) attribute) except the three documented verbatim-XML sites and the numeric rollback attribute; no from_escaped / write_event / byte-pair attributes; delimiter appended once after the document and UTF-8 validated. NOT decided: well-formedness of caller-supplied XML fragments, a fragment containing the delimiter (inherent to RFC 6242 §4.3).",
         "note": "Trusts quick-xml 0.31 escaping of < > & ' \" in BytesText::new and Attribute::from((&str,&str)).",
         "design_ref": "DESIGN.md §3 C10",
     },
     "C13": {
-        "technique": "static analysis: sibling-consistency lint over all 23 reader loops (THIR arm tables: namespace/local-name matching, comment and declaration arms, Start/Empty symmetry) + MIR dataflow from read_text to token sinks (trim)",
+        "technique": "static analysis: sibling-consistency lint over all reader loops (THIR arm tables: namespace/local-name matching in either operand order, comment arms, unconditional declaration arm, Start/Empty symmetry) + MIR taint from read_text to token sinks where only str::trim and verified wrappers of it sanitise",
         "text": "Decides, per rewrite named by the property, the syntactic obligation on every reader loop: namespace-resolved local-name matching (prefix independence), comment skipping, declaration skipping at document level, Start/Empty symmetry per element (with a justification table for spellings that are rejected either way or lie outside the grammars), trimming of token-valued text. The property as stated does not hold: 14 empty-element-form asymmetries are listed as known findings (all reproduced); comment/declaration/whitespace defects were repaired. NOT decided: attribute order/quoting and inter-element whitespace (quick-xml tokenizer, assumed).",
         "note": "Trusts quick-xml 0.31 event delivery and read_text semantics (raw slice).",
         "design_ref": "DESIGN.md §3 C13",
     },
     "C14": {
-        "technique": "static analysis: panic-capable site inventory over the input-reachable workspace call graph (MIR Assert terminators, unwrap/expect/index/split sites) against an audited table with re-verified discharges; cycle-without-consumption check on reader loops; catch-all arm and UTF-8 validation checks",
-        "text": "Reduces totality over inputs to two source-level facts and decides them: every panic-capable site reachable from the 70+ input entry points is accounted for (by type, by a C06 invariant, constant arithmetic, or trusted macro internals), and every reader loop consumes input on every path round the loop with a catch-all error arm; UTF-8 is validated before parsing. NOT decided: panics/loops inside quick-xml, iri-string, generic-ip; memory exhaustion; EOF hang (C07).",
+        "technique": "static analysis: panic-capable site inventory over the input-reachable workspace call graph against an audited table with re-verified discharges (framing helpers covered by what their body does); cycle-without-consumption check on reader loops; catch-all arm and UTF-8 validation checks; taint from the body-skipping call to `?` in the first parse phase",
+        "text": "Reduces totality over inputs to two source-level facts and decides them: every panic-capable site reachable from the 70+ input entry points is accounted for (by type, by a C06 invariant, constant arithmetic, or trusted macro internals), and every reader loop consumes input on every path round the loop with a catch-all error arm; UTF-8 is validated before parsing. NOT decided: panics/loops inside quick-xml, iri-string, generic-ip; memory exhaustion; EOF hang (C07). Second round: the first parse phase of a reply (run by whichever caller holds the transport) fails on the envelope only — a malformed body is reported to the request that owns the reply, not to a bystander.",
         "note": "Call graph over-approximates trait dispatch inside the workspace; dependencies are opaque.",
         "design_ref": "DESIGN.md §3 C14",
     },
     "C16": {
-        "technique": "static analysis: THIR arm-effect analysis of the attribute scan (order independence), control-dependence of Candidate construction, call-chain origin of expression and name (unescape), constant tables",
+        "technique": "static analysis: path exploration of Maybe<Candidate>::read_xml (vlib/absint.py): what each path of the attribute scan and of the element loops assumed and did — order independence, selection conditions, origin chains of expression and name; constant tables",
         "text": "Decides: the attribute scan's result does not depend on attribute order or duplication; a statement is selected only with a parseable annotation, default reject action, a name, and no other content; expression and name are the configuration's (unescaped); candidates come from the running datastore with the policy-statement subtree filter, installed ones from the ephemeral candidate datastore; duplicate names are an error. NOT decided: MpFilterExpr's grammar, Junos' rendering of annotations.",
         "note": "Trusts quick-xml attribute unescaping and the rpsl parser.",
         "design_ref": "DESIGN.md §3 C16",
